@@ -504,7 +504,95 @@ def run_remat_scan_rng(ctx, i, rng):
         ctx.check(len(rows) == 1, 'rng:unsplit_stream_varies', lambda: dict(case=desc, stream=s, distinct=len(rows)))
 
 
+def run_functional(ctx, i, rng):
+  """Functional form nn.scan(fn)(self, ...) / nn.vmap(fn)(self, ...) whose target is the enclosing module: the module may already own
+  variables in a broadcast collection when the region starts (layers created before it) and the body creates more of them. The
+  reference is the same module with an explicit Python loop / per-example stack."""
+  import jax
+  import jax.numpy as jnp
+  import flax.linen as nn
+  from flax.core import unfreeze
+  kind = ['scan', 'scan', 'vmap'][i % 3]
+  pre = [0, 1, 2][(i // 3) % 3]          # layers created on `self` before the region
+  post = (i // 9) % 2                    # a layer created after it
+  n_body = 1 + (i // 18) % 2             # layers created inside the body
+  T = rng.choice([1, 2, 3, 4])
+  reverse = kind == 'scan' and rng.random() < 0.3
+  counter = rng.random() < 0.5           # a carried / per-example mutable collection written in the body
+  desc = dict(kind=kind, pre=pre, post=post, body_layers=n_body, T=T, reverse=reverse, counter=counter)
+  B, F, H = 2, 3, 4
+  with ctx.case('functional', i, desc, nontrivial=True):
+    def step(mdl, c, x, cells=None, nvar=None):
+      # lifted: layers / the counter are created or looked up inside the region; plain loop: created once and passed in
+      h = jnp.concatenate([c, x], axis=-1)
+      for k in range(n_body):
+        h = jnp.tanh((cells[k] if cells else nn.Dense(H, name='cell%d' % k))(h))
+      if counter:
+        n = nvar if nvar is not None else mdl.variable('counter', 'n', lambda: jnp.zeros((), jnp.float32))
+        n.value = n.value + 1.0
+        h = h + 0.01 * n.value
+      return h, h * 2.0
+
+    def shapes(t):
+      return jax.tree_util.tree_map(lambda a: (tuple(np.shape(a)), str(np.asarray(a).dtype)), t)
+
+    class M(nn.Module):
+      lifted: bool
+
+      @nn.compact
+      def __call__(self, xs):
+        for k in range(pre):
+          xs = nn.Dense(F, name='proj%d' % k)(xs)
+        c0 = jnp.zeros((B, H))
+        # a carried collection cannot be created inside a scan (documented): it is declared on the module before the region
+        nvar = self.variable('counter', 'n', lambda: jnp.zeros((), jnp.float32)) if counter else None
+        cells = None if self.lifted else [nn.Dense(H, name='cell%d' % k) for k in range(n_body)]
+        if kind == 'scan':
+          if self.lifted:
+            c, ys = nn.scan(step, variable_broadcast='params', variable_carry='counter', split_rngs={'params': False},
+                            in_axes=0, out_axes=0, reverse=reverse)(self, c0, xs)
+          else:
+            c, ys = c0, [None] * T
+            for t in (range(T - 1, -1, -1) if reverse else range(T)):
+              c, ys[t] = step(self, c, xs[t], cells, nvar)
+            ys = jnp.stack(ys, 0)
+        else:
+          if self.lifted:
+            c, ys = nn.vmap(step, variable_axes={'params': None, 'counter': None}, split_rngs={'params': False}, in_axes=(None, 0), out_axes=0)(self, c0, xs)
+          else:
+            outs = [step(self, c0, xs[t], cells, nvar) for t in range(T)]
+            c, ys = jnp.stack([o[0] for o in outs], 0), jnp.stack([o[1] for o in outs], 0)
+        if post:
+          ys = nn.Dense(2, name='out')(ys)
+        return c, ys
+
+    if kind == 'vmap' and counter:
+      # a broadcast (axis None) collection written by every example has no per-example-stack meaning: keep the counter read-only there
+      ctx.event('note.functional:vmap_counter_skipped')
+      return
+    xs = jnp.asarray(np.random.default_rng(i).uniform(-1, 1, (T, B, F)).astype(np.float32))
+    key = jax.random.key(i)
+    (out_l, v_l), (out_p, v_p) = M(True).init_with_output(key, xs), M(False).init_with_output(key, xs)
+    v_l, v_p = unfreeze(v_l), unfreeze(v_p)
+    ctx.op('nn.%s(functional form on self).init' % kind)
+    ok = ctx.check(shapes(v_l) == shapes(v_p), 'functional.init:tree', lambda: dict(case=desc, lifted=shapes(v_l), plain=shapes(v_p)))
+    if not ok:
+      return
+    ctx.check(close(v_l['params'], v_p['params']), 'functional.init:values', lambda: dict(case=desc))
+    ctx.check(close(out_l, out_p), 'functional.init:output', lambda: dict(case=desc))
+    mut = ['counter'] if counter else False
+    for rep in range(2):
+      got = M(True).apply(v_p, xs, mutable=mut)
+      want = M(False).apply(v_p, xs, mutable=mut)
+      ctx.op('nn.%s(functional form on self).apply' % kind)
+      ctx.check(close(got, want), 'functional.apply', lambda: dict(case=desc, rep=rep))
+      if counter:
+        v_p = dict(v_p, counter=unfreeze(want[1])['counter'])
+
+
 def run(ctx):
+  for i in ctx.indices(72 if ctx.tier == 'quick' else 360, 'functional'):
+    run_functional(ctx, i, ctx.rng('functional', i))
   for i in ctx.indices(12 if ctx.tier == 'quick' else 60, 'remat_scan_rng'):
     run_remat_scan_rng(ctx, i, ctx.rng('rsr', i))
   for i in ctx.indices(200 if ctx.tier == 'quick' else 2400, 'scan'):
